@@ -1723,9 +1723,6 @@ fn key_variants(quick: bool, mutation_set: bool) -> Vec<KeySpec> {
         for &mn in &vals {
             for &sg in &vals {
                 for name in ["tsig-key.example", "TSIG-Key.Example"] {
-                    if mutation_set && quick && !((mn == n && sg == n && name.starts_with('t')) || (mn == f && sg == f && name.starts_with('T'))) {
-                        continue;
-                    }
                     v.push(KeySpec {
                         alg,
                         secret: SECRET.to_vec(),
@@ -1888,8 +1885,12 @@ fn exchange(ctx: &Ctx, l: &mut Local, kv: &KeySpec, rs: usize, seq: bool) {
 static SAMPLES: std::sync::Mutex<Vec<Value>> = std::sync::Mutex::new(Vec::new());
 fn g_sample(f: impl FnOnce() -> Value) {
     let mut s = SAMPLES.lock().unwrap();
-    if s.len() < 8 {
-        s.push(f());
+    if s.len() < 64 {
+        let v = f();
+        // at most four samples per runner
+        if s.iter().filter(|x| x["runner"] == v["runner"]).count() < 4 {
+            s.push(v);
+        }
     }
 }
 
@@ -2167,7 +2168,7 @@ fn unsigned_chain(ctx: &Ctx, l: &mut Local, kv: &KeySpec) {
         let (got, same) = cs.step(ctx, l, &m, T0 + 2 + k as u64, &format!("S U^{}", k + 1));
         l.distinct.push(fnv(format!("chain{}{}", kv.tag(), k).as_bytes()));
         l.c(&format!("unsigned #{:03}..: {got:?}", (k + 1) / 50 * 50));
-        if k + 1 == 99 || k + 1 == 100 {
+        if (k + 1 == 99 || k + 1 == 100) && kv.alg == Alg::Sha256 && kv.min.is_none() {
             g_sample(|| json!({"runner": "unsigned-chain", "key": kv.tag(), "unsigned_message_number": k + 1, "library_verdict": format!("{got:?}")}));
         }
         if !same {
@@ -2234,7 +2235,11 @@ fn build_mut_scens(ctx: &Ctx, l: &mut Local, kv: &KeySpec, with_big: bool) -> Ve
         let ssc = ServerScen::new(vec![kv.clone()], false, false, now_s, ans_presign.clone(), small);
         let out = eval_server(ctx, l, &ssc, &req, "mutation-base", true);
         if out.got != Cls::Accept || out.acc.is_none() {
-            l.c("mutation base skipped: server does not accept the honest request as the reference does");
+            l.c(if out.got == Cls::BadTrunc {
+                "mutation base skipped: key signs shorter than it accepts (honest request is BADTRUNC for library and reference alike)"
+            } else {
+                "mutation base skipped: server does not accept the honest request as the reference does"
+            });
             continue;
         }
         let st = structural(&req, &rk, &[], false, now_s);
